@@ -31,7 +31,8 @@ pub enum ConnectionBlockedNotification {
 #[derive(Debug, Clone)]
 pub struct ConnectionTuning {
     /// Set the bound used when creating `mio_extras::channel::sync_channel()` channels for sending
-    /// messages to the connection's I/O thread. The default value for this field is 16.
+    /// messages to the connection's I/O thread. The default value for this field is 16. A value
+    /// of 0 is treated as 1.
     ///
     /// See the discussion on [connection tuning](struct.Connection.html#tuning) for more
     /// information.
